@@ -210,6 +210,13 @@ int cmdResave(int argc, char** argv) {
 								if (loadFromString(nif, nb) != 0) break;
 								measure(nif, def != 0, caseOf(k), "stream-173", out);
 							}
+							// ... and the model as loaded, told through the API to be written as the other version
+							for (int def = 0; def < 2; def++) {
+								NifFile nif;
+								if (loadFromString(nif, bytes) != 0) break;
+								nif.GetHeader().SetVersion(NiVersion(NiFileVersion::V20_2_0_7, 12, 173));
+								measure(nif, def != 0, caseOf(k), "version-set-to-stream-173", out);
+							}
 						}
 					}
 				}
